@@ -155,7 +155,14 @@ class C13(Check):
             if rng.random() < 0.5:
                 opts["o"] = rng.choice(["out", "results", "res_dir"])
             adjname = rng.choice(["adjacency.dat", "adj.txt"])
-            argv = ["--k", str(K)]
+            # numbers as scripts write them: a quarter of the runs zero-pad their numeric option values (decimal!)
+            pad = rng.random() < 0.25
+
+            def num(x):
+                if pad and isinstance(x, int) and x < 10 ** 6:
+                    return "%0*d" % (rng.choice([2, 3, 4]), x)
+                return str(x)
+            argv = ["--k", num(K)]
             if adjname != "adjacency.dat" or rng.random() < 0.5:
                 argv += ["--a", adjname]
             files = {adjname: render_adjacency(rng, recs)}
@@ -170,7 +177,7 @@ class C13(Check):
                 argv += ["--assortative"]
             for o in ("r", "maxit", "y", "s", "o"):
                 if o in opts:
-                    argv += ["--" + o, str(opts[o])]
+                    argv += ["--" + o, num(opts[o]) if o != "o" else str(opts[o])]
             # shuffle option order (pairs stay together)
             chunks, i = [], 0
             while i < len(argv):
@@ -246,7 +253,10 @@ class C13(Check):
                 self.corr_broken.append(("cli", c["cid"], "exit", "model says %s, binary ran" % m.get("exit"), " ".join(c["argv"])))
             else:
                 for k2 in ("dir", "assort", "initfile", "K", "r", "maxit", "nconv", "seed"):
-                    if m[k2] != [str(got[k2])]:
+                    mv = m[k2]
+                    if len(mv) == 1 and mv[0].isdigit():
+                        mv = [str(int(mv[0]))]      # the model keeps the seed as the option's text ("007"): compare the number
+                    if mv != [str(got[k2])]:
                         self.corr_broken.append(("cli", c["cid"], k2, "impl=%s model=%s" % (got[k2], m[k2]), " ".join(c["argv"])))
                 if m["starts"] != call["starts"] or m["ends"] != call["ends"] or [float(x) for x in m["weights"]] != call["weights"]:
                     self.corr_broken.append(("cli", c["cid"], "records", "model reader differs", " ".join(c["argv"])))
@@ -523,6 +533,43 @@ class C14(Check):
                 self.nontrivial((kind, assort, K, L, text))
                 if o.get("err") == ["0"]:
                     self.violate("affinity-shape-mismatch-accepted", "file with mismatching shape (%s) was read instead of rejected" % kind, replay)
+        # layer ids as numeric tools write them (1.0, 2.000000, 0.000000000000000000e+00 — savetxt style, ids below 10 so
+        # that the leading digits are the id): the file still means the same; implementation-side monitor only (the
+        # Lean reader model covers the stated lexical class, decimal naturals)
+        flines, fmeta = [], {}
+        for n2 in range(24 if self.tier == "quick" else 200):
+            K, L = rng.randint(2, 4), rng.randint(1, 4)
+            assort = rng.random() < 0.5
+            diag = [[round(rng.random() * rng.choice([1, 10]), 5) + 0.001 for _ in range(K)] for _ in range(L)]
+            style = rng.choice(["%d.0", "%d.000000", "%.18e"])
+            order = list(range(L))
+            rng.shuffle(order)
+            text = "".join("%s %s\n" % ((style % a), " ".join(fmt6(x) for x in diag[a])) for a in order)
+            size = (K if assort else K * K) * L
+            cid = "fl%d" % n2
+            flines.append(" ".join([cid, "readaff", str(int(assort)), str(K), str(size), hexbytes(text)]))
+            fmeta[cid] = (assort, K, L, diag, text, size)
+        if self.bdir:
+            fo, fcr = C.run_impl(self.bdir, flines)
+            self.cov["evaluations"] += len(flines)
+            for cid, line, err, code in fcr:
+                self.on_crash("readaff", cid, line, err, code)
+            for cid, (assort, K, L, diag, text, size) in fmeta.items():
+                o = fo.get(cid)
+                if not o:
+                    continue
+                self.monitor("files with floating-point layer ids")
+                self.nontrivial(("float-ids", assort, K, L, text))
+                want = [0.0] * size
+                for a in range(L):
+                    for k in range(K):
+                        want[(k + a * K) if assort else (k + k * K + a * K * K)] = float(fmt6(diag[a][k]))
+                replay = {"assortative": assort, "K": K, "L": L, "file": text, "case": [c for c in flines if c.startswith(cid + " ")][0]}
+                if o.get("err") != ["0"]:
+                    self.violate("affinity-file-rejected", "initial-affinity file with floating-point layer ids rejected (K=%d L=%d)" % (K, L), replay)
+                elif not ref.vec_close(floats(o["w"]), want, 1e-12, 0.0):
+                    self.violate("affinity-file-misread", "K=%d L=%d %s, layer ids written with a decimal point: start vector %s, the file means %s"
+                                 % (K, L, "assortative" if assort else "general", floats(o["w"]), want), replay)
         # noise and restart, through realization_start
         runs = {}
         for k in range(60 if self.tier == "quick" else 500):
